@@ -373,6 +373,12 @@ def array_index(cx):
             if not ok and e[0] == "tfield" and e[2] == 0 and any(x[0] == "call" and "Enumerate" in x[1] for x in walk(e)):
                 ok = any(l[0] == "is" and l[2] is False and l[1][0] == "bin" and l[1][1] == "Lt" and l[1][2] == ("int", N) and l[1][3][0] == "call" and l[1][3][1].endswith("::len") for l in gl)
                 how = "enumeration counter of a collection with len() <= %d" % N
+            # (a2) a remainder by the array's own length (or by a constant <= N, N > 0): `arr[n % arr.len()]`
+            if not ok and e[0] == "bin" and e[1] == "Rem":
+                d_ = e[3]
+                by_len = d_[0] == "call" and d_[1].endswith("::len") and len(d_[2]) == 1 and any(x[0] in ("local", "phi") and x[1] == arr[0] for x in walk(d_[2][0]))
+                if (d_[0] == "int" and 0 < d_[1] <= N) or by_len:
+                    ok, how = True, "remainder by the array length"
             # (b) bounded counter: only ever 0 or itself + 1, incremented after the store, and tested against N (reset or
             #     excluded) before the store
             if not ok:
